@@ -25,6 +25,8 @@ pub enum Seg { Lit(String), Shell(String), Sec(Vec<Op>) }
 fn literal_chunk(rng: &mut Rng) -> String {
     let n = 1 + rng.below(4);
     let mut s = String::new();
+    // characters an over-eager clean-up would drop: byte-order mark, zero-width space, no-break space, plain blanks
+    if rng.chance(1, 6) { s.push(*rng.pick(&['\u{feff}', '\u{200b}', '\u{a0}', ' ', '\n', '\t', '\u{2028}'])); }
     for _ in 0..n {
         match rng.below(10) {
             0 => s.push('}'), 1 => s.push('\\'), 2 => s.push('$'), 3 => s.push_str("  "), 4 => s.push_str(*rng.pick(gens::UNI_WORDS)),
@@ -241,6 +243,21 @@ pub fn c10(opts: &Opts) -> Report {
                      vec![("template", text.clone()), ("input", x.clone()), ("route", route.to_string()), ("observed", on.show()), ("expected", off.show()), ("theorem", "C10_transparent".into())]);
                 return;
             }
+            // the structured entry point under tracing: several (or no) inputs per section
+            if i % 3 == 1 {
+                let nsec = secs.iter().filter(|s| matches!(s, Section::Sec(_))).count();
+                let x2 = gens::text(&mut ctx.rng, 3);
+                let inputs: Vec<Vec<String>> = (0..nsec).map(|k| match (k + i as usize) % 3 { 0 => vec![x.clone(), x2.clone()], 1 => vec![], _ => vec![x2.clone(), x.clone(), x.clone()] }).collect();
+                let seps: Vec<String> = (0..nsec).map(|k| [" ", ",", "+"][k % 3].to_string()).collect();
+                let run = |d: bool| match real::parse_with_debug(&text, Some(d)) { real::Parsed::Ok(t) => real::fwi(&t, &inputs, &seps), real::Parsed::Err(_) => Out::Err, real::Parsed::Panic => Out::Panic };
+                let (f_off, f_on) = (run(false), run(true));
+                ctx.rep.bump("format_with_inputs_on_off");
+                if f_on != f_off {
+                    viol(ctx, "property", format!("C10: format_with_inputs({text:?}, {inputs:?}, {seps:?}): tracing on {} vs off {}", f_on.show(), f_off.show()),
+                         vec![("template", text.clone()), ("input", x.clone()), ("inputs", format!("{inputs:?}")), ("observed", f_on.show()), ("expected", f_off.show()), ("theorem", "C10_transparent".into())]);
+                    return;
+                }
+            }
             let (mi, _) = model_format(ctx, true, &secs, &x);
             if mi != on {
                 viol(ctx, "correspondence", format!("C10: model (debug) {} vs code {} on ({text:?}, {x:?})", mi.show(), on.show()), vec![("template", text.clone()), ("input", x.clone()), ("observed", on.show()), ("impl_model", mi.show()), ("theorem", "C10_transparent".into())]);
@@ -412,6 +429,20 @@ pub fn c20(opts: &Opts) -> Report {
         })
 }
 
+/// the same pipeline with the letter case of one argument toggled, or one replace flag added (None if nothing to change)
+pub fn tweak_case_or_flag(ops: &[Op]) -> Option<Vec<Op>> {
+    let toggle = |s: &str| -> Option<String> { let t: String = s.chars().map(|c| if c.is_ascii_lowercase() { c.to_ascii_uppercase() } else if c.is_ascii_uppercase() { c.to_ascii_lowercase() } else { c }).collect(); if t != s { Some(t) } else { None } };
+    let mut out = ops.to_vec();
+    for o in out.iter_mut().rev() {
+        match o {
+            Op::Join(s) | Op::Append(s) | Op::Prepend(s) | Op::Surround(s) => if let Some(t) = toggle(s) { *s = t; return Some(out); },
+            Op::Replace(_, _, f) => { if !f.contains('g') { f.push('g'); } else { *f = f.replace('g', ""); } return Some(out); }
+            _ => {}
+        }
+    }
+    None
+}
+
 /* ---------- C05 ------------------------------------------------------------------- */
 pub const COLLIDE_A: &str = "1178befda43a735d";
 pub const COLLIDE_B: &str = "fbad33e4b9886569";
@@ -437,7 +468,9 @@ pub fn c05(opts: &Opts) -> Report {
         opts.cases(150, 2_000), &|ctx, i| {
             let n = 2 + ctx.rng.below(if i % 10 == 0 { 119 } else { 30 });
             // pool for this history
-            let mut inputs: Vec<String> = vec![COLLIDE_A.into(), COLLIDE_B.into(), "a,b,c".into(), "a,b,d".into(), "a;b;c".into(), "hello world".into(), "HELLO world".into(), "how o w\nHow".into(), String::new(), "k1,k2 k3".into(), "a;b c;d e".into()];
+            let mut inputs: Vec<String> = vec![COLLIDE_A.into(), COLLIDE_B.into(), "a,b,c".into(), "a,b,d".into(), "a;b;c".into(), "hello world".into(), "HELLO world".into(), "how o w\nHow".into(), String::new(), "k1,k2 k3".into(), "a;b c;d e".into(),
+                // texts that END with the separator: the last part is empty, whatever was looked up before
+                "p,q,".into(), "a,b,".into(), ",".into(), "x;".into()];
             if i % 3 == 0 { inputs.push(big_input(&mut ctx.rng)); inputs.push(big_input(&mut ctx.rng)); }
             let templates: Vec<(String, Vec<Section>)> = {
                 let mut v: Vec<Vec<Seg>> = vec![
@@ -468,6 +501,10 @@ pub fn c05(opts: &Opts) -> Report {
                     vec![Seg::Sec(vec![Op::Split(",".into(), Range::Range(None, None, false)), Op::Map(vec![Op::Upper]), Op::Join("-".into())])],
                     vec![Seg::Sec(vec![Op::Split(" ".into(), Range::Range(None, None, false)), Op::Join(";".into())])],
                     vec![Seg::Sec(vec![Op::Split(";".into(), Range::Index(1))])],
+                    vec![Seg::Sec(vec![Op::Split(",".into(), Range::Index(0))])],
+                    vec![Seg::Sec(vec![Op::Split(",".into(), Range::Index(-1))])],
+                    vec![Seg::Sec(vec![Op::Split(",".into(), Range::Range(None, None, false))])],
+                    vec![Seg::Sec(vec![Op::Split(",".into(), Range::Range(None, None, false)), Op::Join(";".into())])],
                     vec![Seg::Sec(vec![Op::Split(",".into(), Range::Range(None, None, false)), Op::Map(vec![Op::Split("".into(), Range::Range(None, None, false)), Op::Join(".".into())])])],
                 ];
                 for _ in 0..3 { v.push(segments(&mut ctx.rng, 4)); }
@@ -475,6 +512,25 @@ pub fn c05(opts: &Opts) -> Report {
             };
             hooks::clear_caches(); hooks::reset_counters();
             ctx.drv.request("CLEAR");
+            if i % 5 == 1 {
+                // template objects that come and go: parse, format a list of 100 items through a map, drop; then the same with
+                // another map body of the same shape.  Nothing of a dropped template may be found again by the next one.
+                let list100: String = (0..100).map(|k| format!("w{k}")).collect::<Vec<_>>().join(",");
+                let bodies: Vec<Op> = vec![Op::Upper, Op::Append("!".into()), Op::Lower, Op::Prepend(">".into()), Op::Surround("'".into()), Op::Reverse, Op::Pad(4, '.', PDir::Left)];
+                for k in 0..8 {
+                    let b = bodies[(k + i as usize) % bodies.len()].clone();
+                    let secs = vec![Section::Sec(vec![Op::Split(",".into(), Range::Range(None, None, false)), Op::Map(vec![b]), Op::Join(",".into())])];
+                    let text = match &secs[0] { Section::Sec(o) => print_block(o), _ => String::new() };
+                    let got = { let t = real::parse(&text); match t { real::Parsed::Ok(t) => real::format(&t, &list100), _ => Out::Err } };   // the template is dropped here
+                    let (_, spec) = model_format(ctx, false, &secs, &list100);
+                    ctx.rep.bump("calls"); ctx.rep.bump("short_lived_templates");
+                    if got != spec {
+                        viol(ctx, "property", format!("C05: short-lived template {k} of history {i}: format({text:?}, 100 items) = {} but alone it is {}", trunc(&got.show()), trunc(&spec.show())),
+                             vec![("template", text.clone()), ("input", list100.clone()), ("history_seed", format!("{}:{}", opts.seed, i)), ("observed", got.show()), ("expected", spec.show()), ("theorem", "C05_format_history".into())]);
+                        return;
+                    }
+                }
+            }
             let mut parsed: Vec<Option<Template>> = templates.iter().map(|_| None).collect();
             ctx.rep.eval();
             for step in 0..n {
@@ -594,7 +650,11 @@ pub fn c17(opts: &Opts) -> Report {
                 };
                 templates.push(assemble(&segs));
             }
+            // always present: one pattern with a capture group, extracted at the same time from inputs in which the group
+            // sits at different byte offsets (nothing computed for one input may be read by another call)
+            templates.push(assemble(&[Seg::Sec(vec![Op::RegexExtract("name=(\\w+)".into(), Some(1))]), Seg::Lit("|".into()), Seg::Sec(vec![Op::Split(",".into(), Range::Range(None, None, false)), Op::Map(vec![Op::RegexExtract("(\\d+)-(\\w+)".into(), Some(2))])])]));
             let mut inputs: Vec<String> = vec!["a,b,c,d".to_string(), COLLIDE_A.to_string(), COLLIDE_B.to_string()];
+            for k in 0..6 { inputs.push(format!("{}name=user{k}x,{}7-v{k}", "p".repeat(k * 5), "q".repeat(11 - k))); }
             for k in 0..(2 + ctx.rng.below(5)) { inputs.push(format!("k{k},v{k}-a,v{k}-b,{}", gens::word(&mut ctx.rng))); }
             let big_round = i == 0;
             if big_round {
